@@ -106,7 +106,7 @@ FULLY_SPECIFIED |= {
     'is_err', 'unwrap', 'expect', 'unwrap_or_default', 'take', 'checked_add', 'checked_sub', 'checked_mul', 'saturating_add',
     'saturating_sub', 'wrapping_add', 'wrapping_sub', 'len', 'push', 'pop', 'insert', 'remove', 'is_empty', 'clear', 'as_slice',
     'extend_from_slice', 'clone', 'with_capacity', 'new', 'swap', 'split_at', 'get', 'contains_key', 'to_string', 'to_owned',
-    'as_str', 'copy_from_slice', 'from', 'Some', 'Ok', 'Err', 'None',
+    'as_str', 'copy_from_slice', 'from', 'Some', 'Ok', 'Err', 'None', 'cloned', 'first', 'last', 'as_ref', 'truncate',
 }
 
 
